@@ -78,8 +78,9 @@ _no_optional_shortcircuit()
 _init_on_type()
 
 NAMES = ("x", "y", "a", "p", "q", "c", "w")
-READ = "<P:{{ x }}|{{ y }}|{{ a }}|{{ p }}|{{ q }}|{{ c }}|{{ w }}|{{ forloop.index }}|{{ tablerowloop.index }}{{ forloop.parentloop.index }}{{ forloop.parentloop.length }}{{ forloop.parentloop.parentloop.index }}{{ tablerowloop.col }}>"
-# (forloop.parentloop.*, tablerowloop.col of the CALLER must never be visible: they always print nothing)
+READ = "<P:{{ x }}|{{ y }}|{{ a }}|{{ p }}|{{ q }}|{{ c }}|{{ w }}|{{ forloop.index }}|{{ tablerowloop.index }}{{ forloop.parentloop.index }}{{ forloop.parentloop.length }}{{ forloop.parentloop.parentloop.index }}{{ tablerowloop.col }}{% for j_ in (1..1) %}{{ forloop.parentloop.index }}{{ forloop.parentloop.length }}{{ forloop.parentloop.first }}{% endfor %}>"
+# (forloop.parentloop.*, tablerowloop.col of the CALLER must never be visible, neither directly nor as the parent of a loop
+# of the body's own: they always print nothing)
 # the body assigns / captures / increments every name it has read
 WRITE_ALL = ("{% assign x = 'X' %}{% capture y %}Y{% endcapture %}{% assign a = 'A' %}{% assign p = 'B' %}"
              "{% assign q = 'C' %}{% assign w = 'D' %}{% assign c = 'E' %}"
